@@ -795,16 +795,16 @@ func (b *brokerDomain) step(f []string) string {
 		if !ok {
 			return "nosuchdelivery"
 		}
-		if f[2] == "puback" || f[2] == "pubcomp" {
-			delete(c.midCan, raw)
-			keep := c.outst[:0]
-			for _, d := range c.outst {
-				if d.can != can {
-					keep = append(keep, d)
-				}
+		// the exchange is complete (and the identifier reusable) when the delivery's final acknowledgement is sent
+		keep := c.outst[:0]
+		for _, d := range c.outst {
+			if d.can == can && ((d.qos == 1 && f[2] == "puback") || (d.qos == 2 && f[2] == "pubcomp")) {
+				delete(c.midCan, raw)
+				continue
 			}
-			c.outst = keep
+			keep = append(keep, d)
 		}
+		c.outst = keep
 		return b.observe(c.send(mkPacket(f[2], 0, int(raw))))
 	case f[0] == "ackall" && len(f) == 2:
 		// acknowledge every outstanding delivery of this client: PUBACK, or PUBREC … PUBCOMP
@@ -992,11 +992,17 @@ func (b *brokerDomain) step(f []string) string {
 			return "notfound"
 		}
 		return md.SessionID
+	case f[0] == "setpool" && len(f) == 4:
+		// replace the writer's id pool of node <n> by a small one (exhaustion becomes reachable)
+		wasp.VerifWriterSetPool(b.nodes[atoi(f[1])].writer, int32(atoi(f[2])), int32(atoi(f[3])))
+		return "ok"
 	case f[0] == "pool" && len(f) == 2:
-		// free / outstanding view of the writer's id pool: number of ids it can still hand out is not observable
-		// without draining; report the interval list
-		iv := wasp.VerifWriterPool(b.nodes[atoi(f[1])].writer).Intervals()
-		return fmt.Sprint(iv)
+		// number of identifiers the writer's pool can still hand out (which ones depends on map iteration order)
+		free := 0
+		for _, iv := range wasp.VerifWriterPool(b.nodes[atoi(f[1])].writer).Intervals() {
+			free += int(iv[1] - iv[0])
+		}
+		return "free=" + strconv.Itoa(free)
 	case f[0] == "rpc-publish" && len(f) == 4:
 		// DistributeMessage RPC on node <n>
 		pl, _ := unhex(f[3])
